@@ -124,6 +124,8 @@ func materialize(a absVal, env *runEnv) interface{} {
 			return htmler{decodeChars(a.S)}
 		}
 		return template.HTML(decodeChars(a.S))
+	case "time":
+		return time.Date(2024, 3, 5, 10, 30, 0, 0, time.UTC)
 	case "rec":
 		var f map[string]absVal
 		if len(a.FRaw) > 0 && a.FRaw[0] == '{' {
